@@ -1379,8 +1379,12 @@ func decodeSchemaConstructs(dec *urlValuesDecoder, schemas []*openapi3.SchemaRef
 		}
 
 		for name, prop := range schemaRef.Value.Properties {
-			value, _, err := decodeProperty(dec, name, prop, encFn)
+			value, found, err := decodeProperty(dec, name, prop, encFn)
 			if err != nil {
+				continue
+			}
+			if !found && isNilValue(value) {
+				// the body does not carry this property: leave it out instead of setting it to null
 				continue
 			}
 			if existingValue, exists := obj[name]; exists && !isEqual(existingValue, value) {
